@@ -194,6 +194,11 @@ def x12n_document(param, src_file, fd_997, fd_html,
 
             #errh.set_cur_line(src.get_cur_line())
             valid &= node.is_valid(seg, errh)
+            # Element errors of the trailer itself are only known now: settle the acknowledgement code again
+            if seg.get_seg_id() == 'SE' and errh.cur_st_node is not None:
+                errh.cur_st_node.close(node, seg, src)
+            elif seg.get_seg_id() == 'GE' and errh.cur_gs_node is not None:
+                errh.cur_gs_node.close(node, seg, src)
             #erx.handleErrors(src.pop_errors())
             #erx.handleErrors(errh.get_errors())
             #errh.reset()
